@@ -8,7 +8,7 @@
    iter_index t it = number of items before position it (= distance from begin).
    All statements hold for every 1 <= maxCapacity <= 255, every capacityStep, blockCount, search strategy. *)
 From Coq Require Import ZArith List.
-From C02 Require Import BTreeModel BTreeParams BTreeBase BTreeSearch BTreeIter BTreeAdd BTreeRemove BTreeCtx BTreeRemove2 BTreeTrack BTreeRemove3 BTreeTop BTreeHist BTreeRemoveTop BTreeHist2 BTreeMerge BTreeFast.
+From C02 Require Import BTreeModel BTreeParams BTreeBase SplitSeg BTreeSearch BTreeIter BTreeAdd BTreeRemove BTreeCtx BTreeRemove2 BTreeTrack BTreeRemove3 BTreeTop BTreeHist BTreeRemoveTop BTreeHist2 BTreeMerge BTreeFast BTreeFast2.
 Import ListNotations.
 Local Open Scope Z_scope.
 
@@ -71,6 +71,22 @@ Theorem C02_find_position :
     iter_index t (find linear t k) = if contains linear t k then lb_index (contents t) k else length (contents t).
 Proof. exact find_spec. Qed.
 Print Assumptions C02_find_position.
+
+(* Relocator::pvSplitNode: the six literal segment copies of its two branches (the model's split_parts: AddSegment
+   index arithmetic with s = GetSplitItemIndex(count, c), the new item at index c, for an internal node the two new
+   children in place of child c) are exactly "insert the new item (and children), then cut at s+1 (new item goes left)
+   or s (goes right)": left node = first part, separator = the OLD item s, right node = the rest. *)
+Theorem C02_split_segments_are_insert_then_cut :
+  forall (ks : list Z) (cs sub : list node) (c s : nat) (x : Z),
+    (c <= length ks)%nat -> (s < length ks)%nat ->
+    (cs = [] /\ sub = []) \/ (length cs = S (length ks) /\ length sub = 2%nat) ->
+    let ks' := insert_at c x ks in
+    let cs' := firstn c cs ++ sub ++ skipn (S c) cs in
+    let s' := if (c <=? s)%nat then S s else s in
+    split_parts ks cs sub (length ks) c s x =
+      ((firstn s' ks', firstn (S s') cs'), nth s' ks' 0, (skipn (S s') ks', skipn (S s') cs')).
+Proof. exact split_parts_cut. Qed.
+Print Assumptions C02_split_segments_are_insert_then_cut.
 
 (* pvAdd(iter, x) for ANY valid position (hinted Add): WF is preserved through in-leaf insertion, pvAddGrow and the
    whole pvAddSplit cascade; the sequence becomes (items before iter) ++ x :: (items from iter on); the returned
@@ -273,19 +289,21 @@ Theorem C02_merge_linear_refines :
 Proof. exact merge_linear_refines. Qed.
 Print Assumptions C02_merge_linear_refines.
 
-(* path selection is irrelevant for results: outside the concatenation fast path, MergeTo (empty source, empty
-   destination = swap shortcut, generic or linear path chosen by count*Log2(count+dstCount) < count+dstCount) always
-   yields the stable merge. *)
-Theorem C02_merge_to_refines_nonfast_partial :
+(* MergeTo / MergeFrom, EVERY path: empty source, empty destination (swap shortcut), pvMergeFast in either direction
+   (guarded by the ordering tests as fixed in 103bce4), pvMergeTo (generic) and pvMergeToLinear (chosen by
+   count*Log2(count+dstCount) < count+dstCount).  MergeTo always succeeds; both containers stay WF and sorted, mCount is
+   exact, and the pair of sequences is the list-level stable merge: destination items before equivalent source items,
+   refused duplicates (unique keys) stay in the source, the source is emptied otherwise.  So the path selection is
+   irrelevant for results. *)
+Theorem C02_merge_to_refines :
   forall (maxCap stepRaw blockCount : nat) (linear multi : bool), (1 <= maxCap <= 255)%nat ->
-  forall src dst src' dst' : tree,
+  forall src dst : tree,
     twf maxCap src -> twf maxCap dst -> sorted multi (contents src) -> sorted multi (contents dst) ->
-    (cnt src <> 0 -> cnt dst <> 0 -> fast_test multi src dst = false)%nat ->
-    merge_to maxCap stepRaw blockCount linear multi src dst = Some (src', dst') ->
-    twf maxCap src' /\ twf maxCap dst' /\ sorted multi (contents dst') /\
-    (contents src', contents dst') = spec_merge multi (contents src) (contents dst).
-Proof. exact merge_to_refines. Qed.
-Print Assumptions C02_merge_to_refines_nonfast_partial.
+    exists src' dst', merge_to maxCap stepRaw blockCount linear multi src dst = Some (src', dst') /\
+      twf maxCap src' /\ twf maxCap dst' /\ sorted multi (contents src') /\ sorted multi (contents dst') /\
+      (contents src', contents dst') = spec_merge multi (contents src) (contents dst).
+Proof. exact merge_to_refines_all. Qed.
+Print Assumptions C02_merge_to_refines.
 
 (* why the fast path may concatenate (list level): when destination ++ source is ordered, the stable merge IS
    destination ++ source; when the source is STRICTLY before the destination it is source ++ destination (with a
@@ -303,34 +321,28 @@ Theorem C02_stable_merge_of_strictly_earlier_source_prepends :
 Proof. exact spec_merge_prepend. Qed.
 Print Assumptions C02_stable_merge_of_strictly_earlier_source_prepends.
 
-(* pvMergeFast, proved part: the joining step.  The shorter tree (depth ds, wrapped in e-1 .. e new zero-item roots) is
-   hung on the joining edge of the taller tree (depth e+ds) at the deepest ancestor with room, or a new root holding the
-   separator is made when every ancestor is full: the result is WF and its contents are small ++ sep :: big (shorter
-   tree on the left) resp. big ++ sep :: small (on the right).  edge_caps states that the internal nodes on that edge
-   have capacity maxCapacity, as every internal node created by Node::Create has (WF in this development does not
-   record it).  NOT proved: taking the separator out of the shorter tree (edge_remove), the counts, and the link to the
-   stable-merge specification (the two list-level theorems above give that link once contents are concatenated); the
-   whole fast path is modelled (merge_fast) and compared with the real code, node shapes included, on every run. *)
-Theorem C02_merge_fast_join_partial :
-  forall maxCap : nat, (0 < maxCap)%nat ->
-  forall (e : nat) (swp : bool) (sep : Z) (small big : node) (ds : nat),
-    shape maxCap (e + ds) big -> shape maxCap ds small -> edge_caps maxCap e swp big ->
-    exists d', shape maxCap d' (fast_join maxCap e swp sep small big) /\
-      flatten (fast_join maxCap e swp sep small big) =
-        if swp then flatten big ++ sep :: flatten small else flatten small ++ sep :: flatten big.
-Proof. exact fast_join_spec. Qed.
-Print Assumptions C02_merge_fast_join_partial.
+(* pvMergeFast(tree1, tree2) as a whole: the separator is the last item of the shorter tree when it is on the left
+   (its first item when on the right; the empty edge subtree next to it is destroyed when that item sits in an
+   internal node), the shorter tree is wrapped in new zero-item roots and hung on the joining edge of the taller tree at
+   the deepest ancestor with room, or a new root holding the separator is made: the result is WF (internal nodes
+   keep capacity maxCapacity, which WF now records) and its contents are tree1's followed by tree2's. *)
+Theorem C02_merge_fast_refines :
+  forall maxCap : nat, (1 <= maxCap <= 255)%nat -> forall tl_ tr : tree,
+    twf maxCap tl_ -> twf maxCap tr -> contents tl_ <> [] -> contents tr <> [] ->
+    exists r d, merge_fast maxCap tl_ tr = Some r /\ shape maxCap d r /\ flatten r = contents tl_ ++ contents tr.
+Proof. exact merge_fast_spec. Qed.
+Print Assumptions C02_merge_fast_refines.
 
 (* two containers: all finite histories over {any single-container operation on a or on b, a.Swap(b),
-   a = std::move(b), a = b (copy)}: both stay WF, sorted, mCount exact, and the pair of sequences equals the
-   list-level reference pair. *)
+   a = std::move(b), a = b (copy), a.MergeFrom(b), b.MergeFrom(a)}: both stay WF, sorted, mCount exact, and the pair of
+   sequences equals the list-level reference pair. *)
 Theorem C02_history_two_containers_refines :
   forall (maxCap stepRaw blockCount : nat) (linear multi : bool), (1 <= maxCap <= 255)%nat ->
-  forall ops : list (op2),
-    let st := fold_left (step2 maxCap stepRaw blockCount linear multi) ops (empty_tree, empty_tree) in
+  forall ops : list op3,
+    let st := fold_left (step3 maxCap stepRaw blockCount linear multi) ops (empty_tree, empty_tree) in
     ok2 maxCap multi st /\
-    (contents (fst st), contents (snd st)) = fold_left (spec_step2 multi) ops ([], []).
-Proof. exact history2_refines. Qed.
+    (contents (fst st), contents (snd st)) = fold_left (spec_step3 multi) ops ([], []).
+Proof. exact history3_refines. Qed.
 Print Assumptions C02_history_two_containers_refines.
 
 (* lifted over ALL finite histories over the alphabet Insert / hinted Add (right hint: Add at that position, wrong
